@@ -16,6 +16,7 @@ try:
     for n in names:
         patch = os.path.join(VERIF, "refactorings", n, "patch.diff")
         subprocess.run(["git", "-C", wt, "checkout", "-q", "--", "."], check=True)
+        subprocess.run(["git", "-C", wt, "clean", "-fdq", "-e", "target"], check=True)   # files a patch added
         r = subprocess.run(["git", "-C", wt, "apply", patch], capture_output=True, text=True)
         if r.returncode:
             print(n, "PATCH DOES NOT APPLY (rebase it)", r.stderr[:200]); bad += 1; continue
